@@ -261,6 +261,17 @@ func (P *Program) pos(p token.Pos) string {
 
 // lookupPkgByName resolves a Go package *name* as seen from package `from`.
 func (P *Program) lookupPkgByName(from *types.Package, name string) *types.Package {
+	// explicit form for packages whose name is ambiguous: io_fs = "io/fs"
+	if strings.Contains(name, "_") {
+		path := strings.ReplaceAll(name, "_", "/")
+		for _, cs := range P.ByName {
+			for _, c := range cs {
+				if c.Pkg.Path() == path {
+					return c.Pkg
+				}
+			}
+		}
+	}
 	if from != nil {
 		if from.Name() == name {
 			return from
